@@ -349,6 +349,9 @@ func (e *Env) RunC(name, src string) (*RunResult, error) {
 	for _, f := range []string{"operators.c", "ddptypes.c", "memory.c", "common.c", "runtime.c", "utf8/utf8.c"} {
 		args = append(args, filepath.Join(rt, "source", "DDP", f))
 	}
+	if lo := filepath.Join(e.Inst, "lib", "ddp_list_types_defs.o"); fileExists(lo) {
+		args = append(args, lo)
+	}
 	args = append(args, "-lm")
 	if _, se, code, err := run(dir, nil, 2*time.Minute, "clang-14", args...); err != nil || code != 0 {
 		return &RunResult{CompileErr: se, Exit: code}, nil
@@ -358,4 +361,9 @@ func (e *Env) RunC(name, src string) (*RunResult, error) {
 		return &RunResult{Stdout: so, Stderr: se + err.Error(), Exit: -1}, nil
 	}
 	return &RunResult{Stdout: so, Stderr: se, Exit: code}, nil
+}
+
+func fileExists(p string) bool {
+	_, err := os.Stat(p)
+	return err == nil
 }
